@@ -72,6 +72,7 @@ func (t *treeGen) pluginTree(healthy bool, withBinaries bool) ([]plEntry, []plIn
 		return fs, inst // no plugins directory at all
 	}
 	fs = append(fs, plEntry{path: "plugins", dir: true})
+	smallPool := g.Chance(1, 2) // the same plugin name in several repositories becomes likely
 	nrepos := g.Intn(3) + 1
 	if g.Chance(1, 10) {
 		nrepos = 0
@@ -92,6 +93,9 @@ func (t *treeGen) pluginTree(healthy bool, withBinaries bool) ([]plEntry, []plIn
 		used := map[string]bool{}
 		for j := 0; j < nplug; j++ {
 			n := Pick(g, plNames)
+			if smallPool {
+				n = Pick(g, plNames[:3])
+			}
 			if used[n] {
 				continue
 			}
@@ -103,6 +107,9 @@ func (t *treeGen) pluginTree(healthy bool, withBinaries bool) ([]plEntry, []plIn
 			}
 			fs = append(fs, plEntry{path: d, dir: true})
 			nver := g.Intn(5)
+			if nver == 0 && g.Chance(2, 3) {
+				nver = 1 + g.Intn(3)
+			}
 			usedV := map[string]bool{}
 			var vs []string
 			for k := 0; k < nver; k++ {
@@ -169,6 +176,24 @@ func genC28(g *Gen, tier string, w *bufio.Writer) {
 			}
 			if g.Chance(3, 4) {
 				c := Pick(g, plConstraints)
+				// mostly a constraint that some installed version of this plugin passes
+				for _, p := range inst {
+					if p.repo == d.repo && p.plugin == d.plugin && len(p.versions) > 0 && g.Chance(3, 4) {
+						pvt := buildVT(p.versions)
+						var ok []string
+						for _, cc := range plConstraints {
+							for _, b := range buildCT([]string{cc}, pvt)[0].bits {
+								if b {
+									ok = append(ok, cc)
+									break
+								}
+							}
+						}
+						if len(ok) > 0 {
+							c = Pick(g, ok)
+						}
+					}
+				}
 				if _, ok := conIx[c]; !ok {
 					conIx[c] = len(cons)
 					cons = append(cons, c)
